@@ -119,6 +119,45 @@ def deep_nesting(depth, kind='block'):
     return m
 
 
+def all_constructs():
+    """One small valid module that contains every kind of section entry and every kind of immediate (all four constant types in
+    global initialisers and in code, global.get initialisers, segment offsets, memarg, br_table, call_indirect, block types,
+    passive and active data, element segments, start, data count, name section): every proper prefix of it is a truncated file that
+    ends INSIDE each of these constructs at some length."""
+    m = Module()
+    m.import_func('env', 'host', [I32, F64], [I64])
+    m.imports.append(('env', 'gbase', 'global', (I32, False)))
+    m.imports.append(('env', 'tbl', 'table', (4, 8)))
+    m.mems.append((1, 3, False))
+    m.globals.append((I32, True, [('i32.const', -123456)]))
+    m.globals.append((I64, False, [('i64.const', -0x123456789abcdef)]))
+    m.globals.append((F32, True, [('f32.const', 0x40490fdb)]))
+    m.globals.append((F64, False, [('f64.const', 0x400921fb54442d18)]))
+    m.globals.append((I32, False, [('global.get', 0)]))
+    t0 = m.add_type([], [I32])
+    f1 = m.add_func([], [I32], [], [('i32.const', 1000000)])
+    f2 = m.add_func([I32, F32], [F64], [(2, I64), (1, F64)],
+                    [('block', F64), ('f64.const', 0x3ff8000000000000), ('local.get', 0), ('br_if', 0), ('drop',), ('local.get', 1), ('f64.promote_f32',), ('end',),
+                     ('i64.const', 0x7fffffffffffffff), ('local.set', 2), ('f32.const', 0x7fc00001), ('drop',)], export='f2')
+    f3 = m.add_func([I32], [I32], [],
+                    [('block', None), ('block', None), ('block', None), ('local.get', 0), ('br_table', [0, 1, 2, 1], 2), ('end',), ('end',), ('end',),
+                     ('local.get', 0), ('i32.load16_s', 1, 300), ('local.get', 0), ('call_indirect', t0, 0), ('i32.add',),
+                     ('i32.const', 8), ('i32.const', 0), ('i32.const', 4), ('memory.init', 1), ('data.drop', 1),
+                     ('i32.const', 0), ('i32.const', 8), ('i32.const', 4), ('memory.copy',), ('i32.const', 0), ('i32.const', 7), ('i32.const', 4), ('memory.fill',)], export='f3')
+    st = m.add_func([], [], [], [('i32.const', 5), ('global.set', 1)])
+    m.start = st
+    m.exports.append(('memory', 'memory', 0))
+    m.exports.append(('g2', 'global', 3))
+    m.elems.append((0, [('i32.const', 1)], [f1, f1]))
+    m.elems.append((0, [('global.get', 0)], [f1]))
+    m.datas.append(dict(mode='active', offset=[('i32.const', 65530)], bytes=b'\x01\x02\x03\x04\x05'))
+    m.datas.append(dict(mode='passive', bytes=b'passive!'))
+    m.datas.append(dict(mode='active', offset=[('global.get', 0)], bytes=b'xyz', flag=2))
+    m.datacount = True
+    m.func_names = {f1: 'first', f2: 'second.with.dots', st: 'start'}
+    return m
+
+
 def dense_switch(n):
     """what a compiler emits for a dense n-case switch: n nested blocks around one br_table, one arm after each end; plus two small
     functions so that -f splits the module over several files"""
@@ -226,6 +265,7 @@ def shapes(rnd, tier='quick'):
             out.append(('funcs%d-names-%s' % (n, named), many_funcs(n, named)))
     for en in ('a.b', '__x', 'foo-bar', 'a__b_', 'x y.z', 'h\u00e9', 'X', 'aX2Eb', '_', 'e.'):
         out.append(('namerel-%s' % ''.join(ch if ch.isalnum() else '_' for ch in en), name_relations(en)))
+    out.append(('all-constructs', all_constructs()))
     out.append(('locals-49000-onegroup', many_locals(1, 49000, mixed=False)))
     out.append(('locals-980groups', many_locals(980, 50)))
     out.append(('locals-5000groups-of-1', many_locals(5000, 1)))
